@@ -1,8 +1,29 @@
 """C11 -- no operation hangs."""
 import oracles, scen
 from units.mk import Unit, COMMON
+from units import mk as _mk
+
+
+def tcp_part(ctx):
+    """C11 over the REAL TCP transports: a packet trickling in more slowly than read_timeout_s allows (each fragment inside the transport timeout)
+    must end in a timeout within the bound; the in-memory transport cannot see what TcpTransport.bulk_read itself does with fragments."""
+    from units import c18
+    for impl in ("sync", "async"):
+        f = c18.check_trickle_session(ctx, impl)
+        if f and "infra" not in f.get("kinds", []):
+            ctx.report.prop_failures.append(dict(f, no_shrink=True, replay_with="c18"))
+        elif f:
+            ctx.report.notes.append("trickle session could not be set up: %s" % f["why"])
+
+
+def _replay_c18(ctx, fl):
+    from units import c18
+    return c18.replay(ctx, dict(failure=fl))
+
+
+_mk.REPLAYERS["c18"] = _replay_c18
 Unit([("stall", scen.gen_stall, 4), ("slow", scen.gen_slow, 1), ("tricklebig", scen.gen_trickle_big, 1)], (oracles.o_c11, oracles.o_c11_total, oracles.o_c11_packet, oracles.o_c11_stalled_outcome) + COMMON,
      "virtual clock; for a session touching every operation the device stalls after k packets by {silence, end-of-stream, 1-2 byte trickle with slow calls, "
      "foreign-stream flood, unexpected-command flood}; timeouts from a grid over (transport, read, total) in {None,0,-1,1/1024,0.5,3,10}; outcome kind and "
      "elapsed virtual time are compared with the model and with the bound; a would-block-forever call is the Hang verdict. Non-trivial/distinct as for C01.",
-     250, 5000).export(globals())
+     250, 5000, extra_run=tcp_part).export(globals())
